@@ -1227,6 +1227,14 @@ func (gt *InputObject) defineFieldMap() InputObjectFieldMap {
 		field.DefaultValue = fieldConfig.DefaultValue
 		resultFieldMap[fieldName] = field
 	}
+	// nil configurations and invalid names are skipped above: at least one
+	// field must remain
+	if gt.err = invariantf(
+		len(resultFieldMap) > 0,
+		`%v fields must be an object with field names as keys or a function which return such an object.`, gt,
+	); gt.err != nil {
+		return resultFieldMap
+	}
 	gt.init = true
 	return resultFieldMap
 }
